@@ -42,3 +42,11 @@ Theorem C02_requests_name_their_sender : forall ids boot et ld ls c,
   In c (w_calls (run (init_world ids boot et ld) ls)) -> named c.
 Proof. intros ids boot et ld ls. exact (requests_name_their_sender ids boot et ld ls). Qed.
 Print Assumptions C02_requests_name_their_sender.
+
+(* ... and a new AppendEntries / InstallSnapshot request leaves a node (the goroutine at the head of its run queue)
+   only while that node's role is Leader, carrying that node's current term. *)
+Theorem C02_requests_are_sent_by_the_leader_of_their_term : forall w m c,
+  get_node w (n_id m) = Some m ->
+  In c (w_calls (step_task w m)) -> ~ In c (w_calls w) -> from_leader w c.
+Proof. exact task_request_from_leader. Qed.
+Print Assumptions C02_requests_are_sent_by_the_leader_of_their_term.
